@@ -33,6 +33,10 @@ CHECKS["C18"] = dict(cat="model_checking", design="DESIGN.md §4 C18",
    text="Refusal.tla gives every phase of the pipeline exactly two ways out (ok, refuse) and enumerates the input classes the property quantifies over: 19 unsupported or borderline forms x 11 positions (restricted to well-typed combinations) and 17 legal but unusual spellings. Every class is rendered as a well-typed package (checked by the real loader), plus seeded random full-feature packages; the real analysis and all 8 generator entry points run on it in isolated processes (panics classified, stack overflows and hangs survive as 'fatal' / 'timeout'); TraceOutcome.tla requires every recorded phase outcome to be ok or a diagnostic. The model's predicted analysis outcome only feeds MODEL-DRIFT.",
    note="The specification contributes the input space, the outcome vocabulary and the acceptance; whether a panic is a diagnostic (string / non-runtime error) or a crash (runtime.Error, process death, timeout) is observed on the real process. One representative rendering per class; typescript/api is run on files without routes here (route files: C13/C14).",
    tech="TLA+ enumeration of input classes and outcome model (Refusal.tla) + verdict-style trace validation (TraceOutcome.tla) of outcome classes observed on the real analysis and generators in isolated processes")
+CHECKS["C09"] = dict(cat="model_checking", design="DESIGN.md §4 C09",
+   text="FieldsDef.tla transcribes encoding/json's field rule (unexported / '-' skipped, name part of the tag, '-,' , embedded structs flattened unless named) and gomacro's rule; TLC checks that they agree on every field of the universe (exported? x json tag shapes x options x gomacro ignore, plain and embedded) and exports it. Each field, alone and in random combinations, becomes a real struct reached as a jsonb column; TraceFields.tla compares, per struct: the keys json.Marshal really writes (binary compiled from the synthesised package; also validates the spec's transcription), the keys reported by the analysis, the property names of the generated TypeScript interface, the keys read / written by the Dart routines and the keys accepted / checked by the JSON validator; plus the metamorphic half (adding an ignored field leaves the three outputs byte-identical).",
+   note="Trusted: TLC; encoding/json as ground truth; the TypeScript parser and the token-level extractors for Dart routines and PL/pgSQL validators (harness/internal/tsparse, proj). omitempty/string options are exercised for naming only; the duplicate-key rule of encoding/json is out of scope.",
+   tech="TLA+ transcription of encoding/json's field rule checked against the model of gomacro by TLC + verdict-style trace validation (TraceFields.tla) against real json.Marshal output and parsed generator outputs")
 NOT_APPLICABLE = {}
 ALL = ["C%02d" % i for i in range(1, 21)]
 
